@@ -141,7 +141,14 @@ def make_tls(rng, i, ctx):
     [[o.gamma_method() for o in row] for row in xo]
     xarg = xo[0] if D == 1 else tuple(xo) if rng.random() < 0.5 else xo
     try:
-        res = _quiet(lambda: pe.fits.total_least_squares(xarg, ys, f, silent=True, initial_guess=[p * float(rng.uniform(0.95, 1.05)) for p in ptrue]))
+        kwx = {}
+        if rng.random() < 0.35:
+            # the expected-chi-square estimate (with a covariance of the caller's choosing) is a by-product: the fit itself is what it was
+            nall = npts * (D + 1)
+            a_ = rng.normal(size=(nall, nall)) * 0.05
+            sd = np.concatenate(([2.0 * o.dvalue for o in ys], [3.0 * o.dvalue for row in xo for o in row]))
+            kwx = {'expected_chisquare': True, 'covariance': np.diag(sd) @ (np.eye(nall) + a_ @ a_.T) @ np.diag(sd)}
+        res = _quiet(lambda: pe.fits.total_least_squares(xarg, ys, f, silent=True, initial_guess=[p * float(rng.uniform(0.95, 1.05)) for p in ptrue], **kwx))
     except Exception as e:  # noqa: BLE001
         if 'did not converge' in str(e):
             return 'discard'
@@ -149,7 +156,7 @@ def make_tls(rng, i, ctx):
     if max(abs(float(p.value) - t) / abs(t) for p, t in zip(res.fit_parameters, ptrue)) > 0.5:
         return 'discard'
     xplus = np.atleast_2d(np.asarray(res.xplus, dtype=float))
-    cid = 'tls-%04d-%s-%s' % (i, name, 'negligible' if negligible else 'xerr')
+    cid = 'tls-%04d-%s-%s%s' % (i, name, 'negligible' if negligible else 'xerr', '-expchi' if kwx else '')
     cases = []
     if not negligible:
         cases.append({'id': cid, 'ev': 'tls', 'mode': 'fit', 'n': n, 'fe': gen.strip(eb(n)),
